@@ -129,6 +129,9 @@ class HPS(Harness):
         if p.get("extra_opts", {}).get("force_poll_mesh") and not eng.concrete:
             # candidates are re-snapped to the search mesh: the incumbent is a search-mesh point (as every evaluated point is)
             for d_ in range(D):
+                if p.get("u_fixed") is not None:
+                    eng.assume(_raw(self.u)[d_].e == float(p["u_fixed"]))
+                    continue
                 eng.assume(_raw(self.u)[d_].e == z3.ToReal(z3.Int(f"ugrid{d_}")) * (2.0 ** min(0, k0 * int(opts["search_grid_multiplier"]) - int(opts["search_grid_number"]))))
         self.yval = eng.real("yval")
         if level == 0:
